@@ -100,7 +100,7 @@ impl SubCheck for Transport {
         "transport_along_all_paths"
     }
     fn cases(&self, tier: Tier) -> u32 {
-        tier.pick(400, 8000)
+        tier.pick(2500, 30000)
     }
     fn strategy(&self, _tier: Tier) -> BoxedStrategy<SysDesc> {
         let mut p = SysParams::general();
@@ -152,7 +152,7 @@ impl SubCheck for Constructed {
         "constructed_networks_api"
     }
     fn cases(&self, tier: Tier) -> u32 {
-        tier.pick(6000, 120000)
+        tier.pick(60000, 1000000)
     }
     fn strategy(&self, _tier: Tier) -> BoxedStrategy<NetCase> {
         let env = || (0usize..3, 0usize..3, 0u8..3);
